@@ -41,7 +41,7 @@ TIERS = {
     "thorough": {"shards": 16, "cases": 60000, "calls": 60, "timeout": 3000},
 }
 FLOORS = {
-    "quick": {"counts": {"words_checked": 4000, "motion_targets_checked": 15000,
+    "quick": {"counts": {"words_checked": 4000, "modal_switches": 800, "motion_targets_checked": 15000,
                          "boundary_value_calls": 4000, "validate_contract_evals": 50000,
                          "rejected_out_of_bounds": 4000, "hook_rewrote_word": 300}, "keys": 150},
     "thorough": {"counts": {"words_checked": 600000, "motion_targets_checked": 600000}, "keys": 200},
